@@ -751,6 +751,8 @@ def _end_to_end(ctx, P, pipeline, dist, dmap):
                     'remove_duplicate_substructs': [True, False], 'exclude_floating': [True, False]}
             for k in rng.sample(sorted(pool), rng.randint(1, 6)):
                 opts[k] = rng.choice(pool[k])
+            if opts.get('level') == -1 and opts.get('remove_duplicate_substructs') is False:
+                opts['remove_duplicate_substructs'] = True    # the fingerprinter refuses "no termination condition" on both paths
             fn = os.path.join(ctx.workdir, 'e2e_%d_%d.cfg' % (fi, j))
             P.write_params(P.update_params(opts, section_name='fingerprinting'), fn)
             via_file = attempt(lambda: _fp_obs(pipeline.fprints_from_mol(mol, fprint_params=pipeline.params_to_dicts(fn)[1])))
